@@ -129,6 +129,9 @@ def main(argv=None):
             if not kn.is_known(b):
                 violations.append((b, os.path.relpath(p, VERIF)))
 
+    # the replays above ran in this process under the case watchdog, which leaves the generation watchdog armed
+    harness.disarm()
+
     # 2. generation in fresh worker processes
     nw = nworkers()
     budget = float(os.environ.get("VERIF_BUDGET_S", BUDGET[tier]))
